@@ -32,8 +32,10 @@ type vsymSend struct {
 }
 
 type vsymCluster struct {
-	sends   map[vsymTP27][]vsymSend
-	success map[vsymTP27]int
+	sends    map[vsymTP27][]vsymSend
+	success  map[vsymTP27]int
+	names    map[[16]byte]string // topic id -> name (the brokers know both)
+	oddities int
 }
 
 type vsymTP27 struct {
@@ -71,6 +73,10 @@ func (b *vsymBackendConn) handle(frame []byte) {
 	hdr, req, err := protocol.ParseRequest(frame)
 	if err != nil {
 		b.dropped = true
+		return
+	}
+	if fr, isFetch := req.(*kmsg.FetchRequest); isFetch {
+		b.handleFetch(hdr, fr)
 		return
 	}
 	pr, ok := req.(*kmsg.ProduceRequest)
@@ -116,6 +122,59 @@ func (b *vsymBackendConn) handle(frame []byte) {
 	b.out = append(b.out, payload...)
 }
 
+func (b *vsymBackendConn) handleFetch(hdr *protocol.RequestHeader, fr *kmsg.FetchRequest) {
+	resp := kmsg.NewPtrFetchResponse()
+	resp.Version = hdr.APIVersion
+	drop := false
+	for _, t := range fr.Topics {
+		rt := kmsg.NewFetchResponseTopic()
+		rt.Topic, rt.TopicID = t.Topic, t.TopicID
+		name := t.Topic
+		if name == "" {
+			name = b.c.names[t.TopicID]
+		}
+		for _, p := range t.Partitions {
+			tp := vsymTP27{name, p.Partition}
+			// (a partition left out of a reply and a dropped connection each happen at most once
+			// per run: fetch retries transport errors as well, the product is too large otherwise)
+			n := 5
+			if b.c.oddities >= 1 {
+				n = 3
+			}
+			outcome := vsym_Choose("backend-outcome", n)
+			if outcome >= 3 {
+				b.c.oddities++
+			}
+			b.c.sends[tp] = append(b.c.sends[tp], vsymSend{b.name, outcome})
+			rp := kmsg.NewFetchResponseTopicPartition()
+			rp.Partition = p.Partition
+			switch outcome {
+			case 0:
+				b.c.success[tp]++
+				rp.HighWatermark = 7
+				rp.RecordBatches = []byte{9, 9, 9}
+			case 1:
+				rp.ErrorCode = protocol.NOT_LEADER_OR_FOLLOWER
+			case 2:
+				rp.ErrorCode = protocol.UNKNOWN_TOPIC_OR_PARTITION
+			case 3:
+				continue
+			case 4:
+				drop = true
+			}
+			rt.Partitions = append(rt.Partitions, rp)
+		}
+		resp.Topics = append(resp.Topics, rt)
+	}
+	if drop {
+		b.dropped = true
+		return
+	}
+	payload := protocol.EncodeResponse(hdr.CorrelationID, hdr.APIVersion, resp)
+	b.out = binary.BigEndian.AppendUint32(b.out, uint32(len(payload)))
+	b.out = append(b.out, payload...)
+}
+
 func (b *vsymBackendConn) Read(p []byte) (int, error) {
 	if len(b.out) == 0 {
 		return 0, io.EOF
@@ -131,15 +190,47 @@ func (b *vsymBackendConn) SetDeadline(t time.Time) error      { return nil }
 func (b *vsymBackendConn) SetReadDeadline(t time.Time) error  { return nil }
 func (b *vsymBackendConn) SetWriteDeadline(t time.Time) error { return nil }
 
+// The proxy dials TCP in two places (the pool's Borrow and the round-robin fallback
+// connectBackendExcluding). The spec rewrites both dialer.DialContext calls (a source rewrite
+// re-derived from /repo on every run) into vsymC27Dial, which hands out a fresh in-memory
+// connection to the named backend when the context carries the harness's cluster.
+type vsymC27Ctx struct {
+	context.Context
+	cl *vsymCluster
+}
+
+type vsymC27Key struct{}
+
+func (c vsymC27Ctx) Value(k any) any {
+	if _, ok := k.(vsymC27Key); ok {
+		return c.cl
+	}
+	return c.Context.Value(k)
+}
+
+func vsymC27Dial(ctx context.Context, d net.Dialer, addr string) (net.Conn, error) {
+	if cl, ok := ctx.Value(vsymC27Key{}).(*vsymCluster); ok {
+		return &vsymBackendConn{name: addr, c: cl}, nil
+	}
+	return d.DialContext(ctx, "tcp", addr)
+}
+
 func VsymC27_Produce() {
 	if vsym_Symbolic() {
 		vsym_Override("time.Now", func() time.Time { return time.Unix(1700000000, 0) })
 	}
 	e := newVsymEtcd()
-	e.put("/kafscale/partition-leases/t/0", []byte("1"), 0)
-	e.put("/kafscale/partition-leases/t/1", []byte("2"), 0)
-	if vsym_Bool("u-owned") {
-		e.put("/kafscale/partition-leases/u/0", []byte("2"), 0)
+	if vsym_Bool("one-broker-owns-everything") {
+		// a single group: the proxy may forward the client's frame as it came
+		for _, k := range []string{"t/0", "t/1", "u/0"} {
+			e.put("/kafscale/partition-leases/"+k, []byte("1"), 0)
+		}
+	} else {
+		e.put("/kafscale/partition-leases/t/0", []byte("1"), 0)
+		e.put("/kafscale/partition-leases/t/1", []byte("2"), 0)
+		if vsym_Bool("u-owned") {
+			e.put("/kafscale/partition-leases/u/0", []byte("2"), 0)
+		}
 	}
 	router, err := metadata.NewPartitionRouter(context.Background(), e.client("proxy"), slog.New(slog.NewTextHandler(io.Discard, nil)))
 	vsym_Assert(err == nil, "C27/router")
@@ -158,16 +249,6 @@ func VsymC27_Produce() {
 	pool := newConnPool(time.Second)
 	pool.conns["b1:9092"] = &vsymBackendConn{name: "b1:9092", c: cl}
 	pool.conns["b2:9092"] = &vsymBackendConn{name: "b2:9092", c: cl}
-	// the round-robin fallback dials; the harness hands out a fresh connection to the first
-	// backend that was not tried yet in this attempt
-	vsym_Override("(*github.com/KafScale/platform/cmd/proxy.proxy).connectBackendExcluding", func(pp *proxy, ctx context.Context, exclude map[string]bool) (net.Conn, string, error) {
-		for _, a := range []string{"b1:9092", "b2:9092"} {
-			if !exclude[a] {
-				return &vsymBackendConn{name: a, c: cl}, a, nil
-			}
-		}
-		return nil, "", errors.New("no backends available")
-	})
 	tps := []vsymTP27{{"t", 0}, {"t", 1}, {"u", 0}}
 	req := kmsg.NewPtrProduceRequest()
 	req.Version, req.Acks, req.TimeoutMillis = 7, 1, 1000
@@ -185,8 +266,14 @@ func VsymC27_Produce() {
 	}
 	cid := "c"
 	hdr := &protocol.RequestHeader{APIKey: 0, APIVersion: 7, CorrelationID: 5, ClientID: &cid}
-	groups := p.groupPartitionsByBroker(context.Background(), req, nil)
-	out, err := p.forwardProduce(context.Background(), hdr, req, nil, groups, pool)
+	ctx := vsymC27Ctx{context.Background(), cl}
+	groups := p.groupPartitionsByBroker(ctx, req, nil)
+	// the client's own frame, as handleProduceRouting passes it along (nil after an LFS rewrite)
+	var original []byte
+	if vsym_Bool("original-frame-available") {
+		original = encodeProduceRequest(hdr, req)
+	}
+	out, err := p.forwardProduce(ctx, hdr, req, original, groups, pool)
 	vsym_Assert(err == nil && len(out) > 4, "C27/reply-produced")
 	resp, perr := parseProduceResponse(out, 7)
 	vsym_Assert(perr == nil, "C27/reply-decodes")
@@ -206,6 +293,96 @@ func VsymC27_Produce() {
 		vsym_Assert(cl.success[tp] <= 1, "C27/no-partition-written-twice")
 		for i := 1; i < len(cl.sends[tp]); i++ {
 			vsym_Assert(cl.sends[tp][i-1].outcome == 1, "C27/resent-only-after-not-leader")
+		}
+	}
+	for tp := range got {
+		known := false
+		for _, q := range tps {
+			if q == tp {
+				known = true
+			}
+		}
+		vsym_Assert(known, "C27/no-entry-for-a-partition-that-was-not-requested")
+	}
+}
+
+// VsymC27_Fetch: the same world for a fetch of t/0, t/1, u/0, addressed by name (v11) or by topic
+// id (v13), through the real resolveFetchTopicNames, groupFetchPartitionsByBroker and forwardFetch.
+func VsymC27_Fetch() {
+	if vsym_Symbolic() {
+		vsym_Override("time.Now", func() time.Time { return time.Unix(1700000000, 0) })
+	}
+	e := newVsymEtcd()
+	e.put("/kafscale/partition-leases/t/0", []byte("1"), 0)
+	e.put("/kafscale/partition-leases/t/1", []byte("2"), 0)
+	if vsym_Bool("u-owned") {
+		e.put("/kafscale/partition-leases/u/0", []byte("2"), 0)
+	}
+	router, err := metadata.NewPartitionRouter(context.Background(), e.client("proxy"), slog.New(slog.NewTextHandler(io.Discard, nil)))
+	vsym_Assert(err == nil, "C27/router")
+	ids := map[string][16]byte{"t": metadata.TopicIDForName("t"), "u": metadata.TopicIDForName("u")}
+	cl := &vsymCluster{sends: map[vsymTP27][]vsymSend{}, success: map[vsymTP27]int{}, names: map[[16]byte]string{ids["t"]: "t", ids["u"]: "u"}}
+	p := &proxy{
+		store:          metadata.NewInMemoryStore(metadata.ClusterMetadata{}),
+		logger:         slog.New(slog.NewTextHandler(io.Discard, nil)),
+		router:         router,
+		brokerAddrs:    map[string]string{"1": "b1:9092", "2": "b2:9092"},
+		backends:       []string{"b1:9092", "b2:9092"},
+		backendRetries: 1,
+		dialTimeout:    time.Second,
+		topicNames:     map[[16]byte]string{ids["t"]: "t", ids["u"]: "u"},
+	}
+	pool := newConnPool(time.Second)
+	pool.conns["b1:9092"] = &vsymBackendConn{name: "b1:9092", c: cl}
+	pool.conns["b2:9092"] = &vsymBackendConn{name: "b2:9092", c: cl}
+	byID := vsym_Bool("by-topic-id")
+	version := int16(11)
+	if byID {
+		version = 13
+	}
+	tps := []vsymTP27{{"t", 0}, {"t", 1}, {"u", 0}}
+	req := kmsg.NewPtrFetchRequest()
+	req.Version, req.MaxWaitMillis, req.MaxBytes, req.ReplicaID = version, 0, 1<<20, -1
+	for _, name := range []string{"t", "u"} {
+		rt := kmsg.NewFetchRequestTopic()
+		if byID {
+			rt.TopicID = ids[name]
+		} else {
+			rt.Topic = name
+		}
+		for _, tp := range tps {
+			if tp.topic == name {
+				rp := kmsg.NewFetchRequestTopicPartition()
+				rp.Partition, rp.PartitionMaxBytes = tp.part, 1<<20
+				rt.Partitions = append(rt.Partitions, rp)
+			}
+		}
+		req.Topics = append(req.Topics, rt)
+	}
+	cid := "c"
+	hdr := &protocol.RequestHeader{APIKey: 1, APIVersion: version, CorrelationID: 5, ClientID: &cid}
+	ctx := vsymC27Ctx{context.Background(), cl}
+	payload := encodeFetchRequest(hdr, req)
+	out, err := p.handleFetchRouting(ctx, hdr, payload, pool)
+	vsym_Assert(err == nil && len(out) > 4, "C27/reply-produced")
+	resp, perr := parseFetchResponse(out, version)
+	vsym_Assert(perr == nil, "C27/reply-decodes")
+	vsym_Reach("fetch-replied")
+	got := map[vsymTP27][]int16{}
+	for _, t := range resp.Topics {
+		name := t.Topic
+		if name == "" {
+			name = cl.names[t.TopicID]
+		}
+		for _, pt := range t.Partitions {
+			tp := vsymTP27{name, pt.Partition}
+			got[tp] = append(got[tp], pt.ErrorCode)
+		}
+	}
+	for _, tp := range tps {
+		vsym_Assert(len(got[tp]) == 1, "C27/exactly-one-reply-entry-per-requested-partition")
+		if len(got[tp]) == 1 && got[tp][0] == 0 {
+			vsym_Assert(cl.success[tp] >= 1, "C27/success-only-if-a-broker-reported-success")
 		}
 	}
 	for tp := range got {
